@@ -29,7 +29,7 @@ CHECKS = {
         level="exploration",
         engine="E1-enum",
         technique="bounded-exhaustive enumeration of the ranked program space rendered by the engine and by an independent reference interpreter (differential)",
-        text="Every program of the depth-1 and depth-2 generator spaces (1.96e5 programs: all nestings of if/else, for with else / filter / unpacking / recursion, set, set-block, with, macros with defaults and keyword arguments, call blocks, filter blocks, autoescape blocks, break/continue, with leaves that read and write variables inside and outside every scope) under 3 contexts is rendered by the engine and by R, a 500-line tree walker over its own value type implementing the documented rules (scope per construct, clean scope per loop iteration, if-branches and template level persist, macro closures with definition-frame values, argument binding, caller, loop recursion, for-else, loop filters, unpacking, safe-string capture under auto-escaping); outputs must be identical or both must fail. Thorough adds every 41st depth-3 program (3.7e6 evaluations). A closure family (2048 programs) assigns a name inside each of 16 enclosing constructs (if/else arms taken and not, for/else with 0 or 1 iterations, loop else bodies reading names the loop bound, with, filter, set block, autoescape, nested ifs) in 4 assignment forms within a macro, a macro whose outer value changes after declaration, a call block in a loop and a macro in a macro, and reads it inside and after the construct. The loop object clause prints every field in every iteration for 11 sequence kinds (list, tuple, map keys, items, range, lazy iterable, string, reversed, sliced, |list, filtered loop) x lengths 0..4 against directly computed values. A loop-filter family (8 filter expressions naming loop, the enclosing target or outer names x 6 constructs around the filtered loop x 3 nesting depths) and an immediate second render of every program (same result required) complete the space.",
+        text="Every program of the depth-1 and depth-2 generator spaces (1.96e5 programs: all nestings of if/else, for with else / filter / unpacking / recursion, set, set-block, with, macros with defaults and keyword arguments, call blocks, filter blocks, autoescape blocks, break/continue, with leaves that read and write variables inside and outside every scope) under 3 contexts is rendered by the engine and by R, a 500-line tree walker over its own value type implementing the documented rules (scope per construct, clean scope per loop iteration, if-branches and template level persist, macro closures with definition-frame values, argument binding, caller, loop recursion, for-else, loop filters, unpacking, safe-string capture under auto-escaping); outputs must be identical or both must fail. Thorough adds every 13th depth-3 program (1.0e7 evaluations). A closure family (2048 programs) assigns a name inside each of 16 enclosing constructs (if/else arms taken and not, for/else with 0 or 1 iterations, loop else bodies reading names the loop bound, with, filter, set block, autoescape, nested ifs) in 4 assignment forms within a macro, a macro whose outer value changes after declaration, a call block in a loop and a macro in a macro, and reads it inside and after the construct. The loop object clause prints every field in every iteration for 11 sequence kinds (list, tuple, map keys, items, range, lazy iterable, string, reversed, sliced, |list, filtered loop) x lengths 0..4 against directly computed values. A loop-filter family (8 filter expressions naming loop, the enclosing target or outer names x 6 constructs around the filtered loop x 3 nesting depths) and an immediate second render of every program (same result required) complete the space.",
         note="R is the trusted base; every disagreement was triaged by hand (three engine defects fixed, two gaps in R closed). R deliberately leaves undefined: includes/blocks, `set` in a for-else body read afterwards, macro defaults referring to parameters, conditional expressions; such programs are reported as 'outside R'.",
         design_ref="2/C03",
     ),
@@ -77,7 +77,7 @@ CHECKS = {
         level="exploration",
         engine="E1-enum",
         technique="bounded-exhaustive enumeration of monomorphic serde types x per-leaf edge alphabets (round trip), of edge values x embedding routes (identity), and of short strings over a JSON/HTML-critical alphabet (tojson parse-back)",
-        text="Typed round trip T::deserialize(Value::from(Serde(&x))) == x for 14 leaf types x 20 container shapes (Option, Vec, tuples, arrays, maps keyed by String/i64/u64/bool, newtype/tuple/field structs, every enum variant shape) plus 14 depth-2 shapes for representative leaves, over per-leaf boundary values (MIN/MAX, 2^53, 2^63, subnormals, infinities, NUL and non-BMP characters, the value-handle marker string). Every value of the edge alphabet (safe strings, undefined, 128-bit integers, NaN, bytes, lists, tuples, lazy iterables, maps, plain objects, invalid values) embedded through 15 routes (7 of them through host Serialize impls that run a nested conversion before, around or after the value) must come back with the same kind, flags and object identity; a failing serialisation must leave no residue; and every history of up to 3 (thorough 5) conversions out of {plain, nested, failing, nested failing, panicking after a nested one, JSON serialisation outside a conversion} must leave the thread-local conversion flag clean after every step. All strings up to length 3 (thorough 4) over 16 critical characters and all edge values (bare, nested, as map keys) go through tojson in .txt/.html templates, tojson(indent) and JSON auto-escaping; the output is parsed with serde_json and compared with the expected JSON value, and must not contain < > & '.",
+        text="Typed round trip T::deserialize(Value::from(Serde(&x))) == x for 14 leaf types x 20 container shapes (Option, Vec, tuples, arrays, maps keyed by String/i64/u64/bool, newtype/tuple/field structs, every enum variant shape) plus 14 depth-2 shapes for representative leaves, over per-leaf boundary values (MIN/MAX, 2^53, 2^63, subnormals, infinities, NUL and non-BMP characters, the value-handle marker string). Every value of the edge alphabet (safe strings, undefined, 128-bit integers, NaN, bytes, lists, tuples, lazy iterables, maps, plain objects, invalid values) embedded through 15 routes (7 of them through host Serialize impls that run a nested conversion before, around or after the value) must come back with the same kind, flags and object identity; a failing serialisation must leave no residue; and every history of up to 3 (thorough 5) conversions out of {plain, nested, failing, nested failing, panicking after a nested one, JSON serialisation outside a conversion} must leave the thread-local conversion flag clean after every step. All strings up to length 3 (thorough 4) over 16 critical characters and all edge values (bare, nested, as map keys) go through tojson in .txt/.html templates, tojson(indent) and JSON auto-escaping; the output is parsed with serde_json and compared with the expected JSON value, and must not contain < > & '. Fifteen further shapes put absent, empty and unit-like payloads into every enum variant shape and wrapper.",
         note="serde_json is the independent JSON parser. Errors are accepted only for maps whose keys JSON cannot carry (none, sequences, non-finite floats) and invalid values. Safe strings are passed through by JSON auto-escaping by design and carry no expectation there. The value-handle registry itself is not inspectable (no hook yet).",
         design_ref="2/C16",
     ),
@@ -85,7 +85,7 @@ CHECKS = {
         level="exploration",
         engine="E1-enum",
         technique="bounded-exhaustive enumeration of failing templates (every truncation point and stray-token insertion of a corpus; run-time faults x construct placements) x vertical/horizontal offsets, with a metamorphic shift oracle",
-        text="Syntax errors are produced by truncating every template of a corpus (29 hand-written templates covering every tag and literal form plus generator programs) at every character boundary, with and without multi-byte text in front, and by inserting 12 stray tokens at the boundaries, plus 37 classic faults; run-time errors by planting 21 failing constructs into 18 placements (loops, branches, with, macros, call blocks, set/filter blocks, child/parent blocks, super, includes, imports, recursive loops, three-level inheritance) whose expected template and line are computed from the placement. Every failing case is re-run with 1/17/(65535-len) filler lines above it (LF and CRLF) and with 3-byte, multi-byte and 70 000-byte prefixes. Oracle: the error and every located cause name a template and a line inside it; kind/detail/name are unchanged and lines move by exactly N; ranges are in bounds, on char boundaries of template_source(), equal to the named template and move by the inserted byte count; Display, alternate, Debug, pretty Debug and display_debug_info never panic or return fmt::Error. Residue: every failing case is re-run on a fresh OS thread after each of 12 prior templates (one per statement kind, three that fail to compile half way) was compiled on that thread with its construct on the failing line; the full location must equal the one obtained on a fresh thread without a prior (the compiler keeps thread-local scratch pools).",
+        text="Syntax errors are produced by truncating every template of a corpus (29 hand-written templates covering every tag and literal form plus generator programs) at every character boundary, with and without multi-byte text in front, and by inserting 12 stray tokens at the boundaries, plus 37 classic faults; run-time errors by planting 21 failing constructs into 18 placements (loops, branches, with, macros, call blocks, set/filter blocks, child/parent blocks, super, includes, imports, recursive loops, three-level inheritance) whose expected template and line are computed from the placement. Every failing case is re-run with 1/17/(65535-len) filler lines above it (LF and CRLF) and with 3-byte, multi-byte and 70 000-byte prefixes. Oracle: the error and every located cause name a template and a line inside it; kind/detail/name are unchanged and lines move by exactly N; ranges are in bounds, on char boundaries of template_source(), equal to the named template and move by the inserted byte count; Display, alternate, Debug, pretty Debug and display_debug_info never panic or return fmt::Error. Residue: every failing case is re-run on a fresh OS thread after each of 12 prior templates (one per statement kind, three that fail to compile half way) was compiled on that thread with its construct on the failing line; the full location must equal the one obtained on a fresh thread without a prior (the compiler keeps thread-local scratch pools). Placements include eight kinds of earlier statements in the same template, and the fault list has eleven faults raised by instructions without a span of their own, five of them after a nested sub-expression.",
         note="Strict undefined mode. Cases that do not fail are skipped and counted. Templates beyond 65 535 lines are outside the property (u16 line counter).",
         design_ref="2/C14",
     ),
@@ -101,7 +101,7 @@ CHECKS = {
         level="exploration",
         engine="E1-enum",
         technique="bounded-exhaustive enumeration of programs and of a registry-generated site table x 4 undefined behaviours, with a monotonicity relation between the four runs and a matrix oracle on direct sites",
-        text="Every program of the depth-2 generator space under 3 contexts (two with missing keys), a site table generated from the built-in registry (each of the 49 filters x 17 argument forms, 42 tests x 8, 4 functions x 6, 62 operator/statement forms, each with an undefined in every argument position) and 5 multi-template families are rendered under Strict, SemiStrict, Lenient and Chainable; whenever a mode succeeds every weaker mode must succeed with the identical output. 22 direct syntactic sites x 4 undefined spellings are compared with the documented matrix (print/iterate fail under Strict+SemiStrict, truth tests only under Strict, attribute/item access everywhere but Chainable, is defined / is undefined / default never), including the error kind. The undefined operand is spelled as a missing variable, a missing key, a missing attribute, an out-of-range index and as the value of an else-less conditional expression whose condition is false (printing, testing and iterating that one is exempt from errors in every mode; attribute, item and slice access on it must fail everywhere except Chainable, also after it was carried through set or a macro argument). The three sites that never fail (default, is defined, is undefined) are enumerated in ten further argument forms (default with its boolean flag, chained defaults, tests inside expressions, conditions and loop filters).",
+        text="Every program of the depth-2 generator space under 3 contexts (two with missing keys), a site table generated from the built-in registry (each of the 49 filters x 17 argument forms, 42 tests x 8, 4 functions x 6, 62 operator/statement forms, each with an undefined in every argument position) and 5 multi-template families are rendered under Strict, SemiStrict, Lenient and Chainable; whenever a mode succeeds every weaker mode must succeed with the identical output. 22 direct syntactic sites x 4 undefined spellings are compared with the documented matrix (print/iterate fail under Strict+SemiStrict, truth tests only under Strict, attribute/item access everywhere but Chainable, is defined / is undefined / default never), including the error kind. The undefined operand is spelled as a missing variable, a missing key, a missing attribute, an out-of-range index and as the value of an else-less conditional expression whose condition is false (printing, testing and iterating that one is exempt from errors in every mode; attribute, item and slice access on it must fail everywhere except Chainable, also after it was carried through set or a macro argument). The three sites that never fail (default, is defined, is undefined) are enumerated in ten further argument forms (default with its boolean flag, chained defaults, tests inside expressions, conditions and loop filters). The matrix and the site table are repeated under HTML auto-escaping and under a custom formatter that only delegates to the default one (printing rules live in more than one place), and every filter gets six argument forms with safe strings next to the undefined operand.",
         note="The relation is between whole renders; the matrix oracle is limited to sites where the undefined operand is used directly.",
         design_ref="2/C12",
     ),
@@ -141,7 +141,7 @@ CHECKS = {
         level="exploration",
         engine="E1-enum",
         technique="bounded-exhaustive enumeration of text/tag/marker sequences x 8 settings against an independent model of the whitespace rules; metamorphic delimiter rewriting of every program of the ranked generator space",
-        text="Every source `text tag text tag text` over a 14-text alphabet (blanks, LF, CRLF, brace and delimiter look-alikes) and 36 tags (variable, block, comment, raw x left/right marker in {none,-,+}) under all 8 settings (3.5e6 sources x 8; plus 34 tags written without blanks or, for comments, without any body - {{-v-}}, {%-set x = 1-%}, {#-c-#}, {#-#}, {#--#}, {##} - alone between all texts and next to every ordinary tag over the core texts; thorough adds three tags over a 6-text core alphabet, 4.8e8 cases) is rendered and compared byte for byte with an 80-line model that implements the rules exactly as the property words them (lstrip judged on the original source); every single raw block with all 81 inner/outer marker combinations x 6 contents is covered too. For delimiter independence every program of the depth-2 generator space (1.96e5 programs, 3 contexts) is rewritten token by token into 10 delimiter families (prefix-sharing, nested-prefix, single-brace, LaTeX, shared end marker, long, with line statement/comment prefixes) and must render identically; default-looking delimiters embedded as text must come out verbatim; line statements/comments are compared with the tag occupying the line for LF and CRLF. The whitespace rules are also checked under every delimiter set without line prefixes (one ordinary or compact tag between all pairs of core texts under all settings, two tags between blank texts under the two extreme settings) against the same delimiter-agnostic model.",
+        text="Every source `text tag text tag text` over a 14-text alphabet (blanks, LF, CRLF, brace and delimiter look-alikes) and 36 tags (variable, block, comment, raw x left/right marker in {none,-,+}) under all 8 settings (3.5e6 sources x 8; plus 34 tags written without blanks or, for comments, without any body - {{-v-}}, {%-set x = 1-%}, {#-c-#}, {#-#}, {#--#}, {##} - alone between all texts and next to every ordinary tag over the core texts; thorough adds three tags over a 6-text core alphabet, 4.8e8 cases) is rendered and compared byte for byte with an 80-line model that implements the rules exactly as the property words them (lstrip judged on the original source); every single raw block with all 81 inner/outer marker combinations x 6 contents is covered too. For delimiter independence every program of the depth-2 generator space (1.96e5 programs, 3 contexts) is rewritten token by token into 10 delimiter families (prefix-sharing, nested-prefix, single-brace, LaTeX, shared end marker, long, with line statement/comment prefixes) and must render identically; default-looking delimiters embedded as text must come out verbatim; line statements/comments are compared with the tag occupying the line for LF and CRLF. The whitespace rules are also checked under every delimiter set without line prefixes (one ordinary or compact tag between all pairs of core texts under all settings, two tags between blank texts under the two extreme settings) against the same delimiter-agnostic model. The text alphabet includes lone CRs (a lone CR is the newline trim_blocks removes; for lstrip_blocks a line starts after LF or right after a lone CR that trim_blocks has just removed - calibrated on the unchanged tree).",
         note="Trusted: the whitespace model in c10.rs (calibrated: it agrees with the engine on all cases after two lexer fixes). Lone-CR line ends and non-ASCII blanks are outside the alphabet. Programs whose text would fuse with a delimiter of the target set are skipped for that set.",
         design_ref="2/C10",
     ),
